@@ -19,7 +19,7 @@ def stub_events(tier: str, rng: random.Random) -> list[dict]:
     from black_it.search_space import SearchSpace
 
     evs = []
-    space = SearchSpace([[0.0, 0.0], [9.0, 9.0]], [1.0, 1.0], verbose=False)
+    space = SearchSpace([[0.0, 0.0], [999.0, 999.0]], [1.0, 1.0], verbose=False)
     cases = []
     for n in (1, 2, 3, 4):
         for scores in itertools.product([0.0, 1.0, 2.0], repeat=n):
@@ -39,13 +39,16 @@ def stub_events(tier: str, rng: random.Random) -> list[dict]:
                 seen["pool"] = np.array(X, copy=True)
                 return np.array(scores, dtype=float)
 
-        pts = np.array([[float(rng.randrange(10)), float(rng.randrange(10))] for _ in range(4)])
+        pts = np.array([[float(rng.randrange(1000)), float(rng.randrange(1000))] for _ in range(4)])
         los = np.array([1.0, 0.5, 0.5, 2.0])
         kp, kl = pts.copy(), los.copy()
-        with quiet():
-            s = Stub(batch_size=bs, random_state=rng.randrange(2**31), max_deduplication_passes=0, candidate_pool_size=len(scores))
-            out = s.sample(space, pts, los)
-        pool = seen["pool"]
+        for _attempt in range(5):
+            with quiet():
+                s = Stub(batch_size=bs, random_state=rng.randrange(2**31), max_deduplication_passes=0, candidate_pool_size=len(scores))
+                out = s.sample(space, pts, los)
+            pool = seen["pool"]
+            if len({tuple(r) for r in pool}) == len(pool):
+                break          # (scores are scripted by pool position: candidates must be distinct points to be told apart)
         ranks = sh.dense_rank(scores)
         sel = []
         for row in out:
@@ -53,9 +56,9 @@ def stub_events(tier: str, rng: random.Random) -> list[dict]:
             sel.append(min(ranks[i] for i in hit) if hit else -7)
         evs.append({"e": "select", "cls": "stub", "bs": bs, "preds": ranks, "sel": sel, "fitsame": seen["fit"] == sh.sha(kp, kl),
                     "predictsame": True, "seed": 0, "kw": {"scores": list(scores)}})
-        evs.append({"e": "sample", "cls": "stub", "bs": bs, "g": [10, 10], "rem": [0, 0], "rows": int(out.shape[0]), "cols": int(out.shape[1]),
+        evs.append({"e": "sample", "cls": "stub", "bs": bs, "g": [1000, 1000], "rem": [0, 0], "rows": int(out.shape[0]), "cols": int(out.shape[1]),
                     "idx": sh.to_units(out, space.param_grid), "histsame": bool(np.array_equal(kp, pts) and np.array_equal(kl, los)),
-                    "call": 0, "kw": {}, "bounds": [[0, 0], [9, 9]], "prec": [1, 1], "seed": 0})
+                    "call": 0, "kw": {}, "bounds": [[0, 0], [999, 999]], "prec": [1, 1], "seed": 0})
     return evs
 
 
